@@ -174,12 +174,14 @@ def judge(case):
     m = a.size
     gs = [np.eye(1, m, i).reshape(a.shape) for i in range(m)] if m <= 36 else [np.eye(1, m, i).reshape(a.shape) for i in range(0, m, max(1, m // 24))]
     gs.append(values.dense_g(a.shape)); gs.append(np.ones(a.shape))
-    for g in gs:
+    for gi, g in enumerate(gs):
         grads = []
         for side in (0, 1):
             try:
                 out, ts = build(side)
                 out.backward(sg.Tensor(g.copy()))
+                if gi == len(gs) - 1:       # last upstream gradient: a second backward over the same graph (both sides accumulate)
+                    out.backward(sg.Tensor(g.copy() * 0.5))
                 grads.append([None if ts[i].grad is None else np.asarray(ts[i].grad.data, dtype=np.float64) for i in diff])
             except Exception as e:
                 v("backward-raised", f"{'fused' if side == 0 else 'composition'} side: {type(e).__name__}: {str(e)[:80]}"); grads.append(None)
